@@ -712,6 +712,11 @@ func (e *Engine) applyContract(st *State, c *FuncContract, key string, sig *type
 		res = Val{K: KTuple, F: rs, Ty: sig.Results()}
 	}
 	for _, en := range c.Ensures {
+		if strings.Contains(en.Text, "defined(") {
+			// clauses over the callee's own atcall snapshots say how the callee got its result; they mean nothing
+			// in the caller's state and are not assumed there
+			continue
+		}
 		t, err := e.evalBool(st, env, en.Expr)
 		if err != nil {
 			e.unsupported("ensures %d of %s: %v", en.Ord, key, err)
